@@ -61,10 +61,18 @@ fn main() {
             writer_mc::RULE.into()
         }
         "C14" => {
+            let t = std::time::Instant::now();
             reader_mc::run(reader_mc::Mode::C14, cli.tier, &mut report);
+            report.notes.push(format!("reader search: {:.1}s", t.elapsed().as_secs_f64()));
+            let t = std::time::Instant::now();
             writer_mc::run(writer_mc::Mode::C14, cli.tier, &mut report);
+            report.notes.push(format!("writer search: {:.1}s", t.elapsed().as_secs_f64()));
+            let t = std::time::Instant::now();
             c13::stale_window_family(cli.tier, &mut report);
+            report.notes.push(format!("digit scanners, stale window: {:.1}s", t.elapsed().as_secs_f64()));
+            let t = std::time::Instant::now();
             c16::displaced_family(cli.tier, &mut report);
+            report.notes.push(format!("text scanners, displaced cursor: {:.1}s", t.elapsed().as_secs_f64()));
             format!("READER: {} || WRITER: {} || TEXT SCANNERS: tabs_or_spaces / newline / next_newline / fixed on every short string with a displaced cursor (the first refill inside the scan realigns the buffer), all read schedules, against the reference offsets and exact look-ahead || DIGIT SCANNERS: every short string x offset x 1..=8 bytes buffered with stale digits right behind the buffered window (the buffer was realigned by the refill that delivered them) x rest at once / byte-wise x 4 scanners x 3 types; the result must be the reference result for the text alone (a raw load beyond the buffered data changes it)", reader_mc::RULE_C02, writer_mc::RULE)
         }
         "C13" => {
